@@ -172,14 +172,20 @@ func tar(ctx context.Context, enc FormatEncoder, fs *fsBufReader, f *File) (n in
 
 	case f.IsRegular():
 		defer f.Close()
+		// The size was recorded before the file is read and has gone into the header
+		// of the payload. Make sure exactly that many bytes follow it: ignore what was
+		// appended to the file since and fail if the file became shorter.
 		payload := FormatPayload{
 			FormatHeader: FormatHeader{Size: 16 + uint64(f.Size), Type: CaFormatPayload},
-			Data:         f.Data,
+			Data:         io.LimitReader(f.Data, int64(f.Size)),
 		}
 		nn, err = enc.Encode(payload)
 		n += nn
 		if err != nil {
 			return n, err
+		}
+		if uint64(nn) != 16+f.Size {
+			return n, fmt.Errorf("file '%s' changed while reading, expected %d bytes, got %d", f.Path, f.Size, nn-16)
 		}
 
 	case f.IsSymlink():
